@@ -9,7 +9,7 @@ os.makedirs(outdir, exist_ok=True)
 for l in open("/verif/properties.jsonl"):
     p = json.loads(l); pid = p["id"]
     prev = []
-    for s in "abcdefghijklmnop":
+    for s in "abcdefghijklmnopqrstuvwxyz":
         mp = "/verif/seeded/%s-%s/meta.json" % (pid, s)
         if os.path.exists(mp):
             prev.append(json.load(open(mp)).get("summary", "")[:200])
